@@ -79,7 +79,7 @@ func cmdVerify(args []string) {
 				bad++
 			}
 			if *verbose || !ok {
-				fmt.Printf("%s %-8s %-7s %5dms %s %s %s\n", mark, ob.Result, ob.Solver, ob.Ms, ob.Name, ob.AllSolvers, filepathBase(ob.File))
+				fmt.Printf("%s %-8s %-7s %5dms %s %s %s @%s\n", mark, ob.Result, ob.Solver, ob.Ms, ob.Name, ob.AllSolvers, filepathBase(ob.File), filepathBase(ob.Pos))
 				if !ok && *verbose {
 					fmt.Println(trunc(ob.Model, 1500))
 				}
@@ -91,11 +91,6 @@ func cmdVerify(args []string) {
 	if bad > 0 {
 		os.Exit(1)
 	}
-}
-
-func cmdProp(args []string) {
-	fmt.Fprintln(os.Stderr, "not implemented yet")
-	os.Exit(2)
 }
 
 func filepathBase(s string) string {
